@@ -421,6 +421,18 @@ func TestC11(t *testing.T) {
 							m[n] = qnode{model[n], int64(sizes[n]), false}
 						}
 					}
+					if i%2 == 0 {
+						// a file of more than one chunk made by the session itself: the size its node reports
+						// is the cumulative size of its DAG, not its length
+						big := b.NewBytesFile(gen.Content(rr, "rand", 262144+1+rr.Intn(3*262144)))
+						m["big-file-of-several-chunks"] = big
+						if bs, e := big.Size(); e == nil {
+							if ts, werr := walkerFor(st).TreeSize(linkCid(big.Link())); werr == nil && uint64(bs) != ts {
+								c.Violation("C11|quick-node-size", "quick NewBytesFile of several chunks reports Size() = %d, the DAG under its link %s holds %d bytes", bs, big.Link(), ts)
+							}
+						}
+						c.Count("quick_multichunk_files", 1)
+					}
 					d := b.NewMapDirectory(m)
 					root = d.Link()
 					sz, szErr = d.Size()
